@@ -219,9 +219,9 @@ Exit ==
   /\ UNCHANGED <<rules, files, part, level, fi, vi, si, ei, ri, tested, dollar, index, file, obs>>
 
 \* the actions that take no parameter and correspond to no logged event of the real code
-\* (NextValue, NextElement, ConsumeNext, Exit, Finish are parameterless too but are logged)
+\* (NextValue, NextSelector, NextElement, ConsumeNext, Exit, Finish are parameterless too but are logged)
 Internal ==
-  \/ ReadRules \/ EndBegin \/ NextFile \/ EndFiles \/ EndValues \/ NextSelector \/ EndSelectors
+  \/ ReadRules \/ EndBegin \/ NextFile \/ EndFiles \/ EndValues \/ EndSelectors
   \/ EnterPatternRules \/ RootRound \/ EndElements \/ EndRules \/ EndRoot
 
 -----------------------------------------------------------------------------
